@@ -358,6 +358,11 @@ these names, explicitly opt in by providing the argument `interact` \
 to the macro (see option `interact` in documentation). Otherwise, \
 consider renaming the arguments.";
 
+pub static INTER_ACTOR_RESTRICT_NOTE : &'static str =
+"   The name `inter_actor` is reserved: the model binds the actor \
+instance under this name inside the generated code. \
+Consider renaming the argument.";
+
 pub static CONCURRENT_INTER_SEND_RECV : &'static str =
 "   Concurrent use of `inter_send` and `inter_recv`.\
 Please make sure to access only one end of the channel, not both simultaneously.";
